@@ -11,7 +11,9 @@ Inductive xpop :=
   (* limiter index, key, Redis failing during the call, calcExpireSeconds() around the call;
      observed: code, error class (0 none, 1 redis error, 2 ErrUnknownCode), the key afterwards,
      [unix0; zone offset; _; unix1; _] (wall clock around the call) *)
-| XPTake (lim key : nat) (down : bool) (w : Z) (code err : Z) (ent : ent3) (exp : list Z)
+  (* cut: the caller's context is cancelled at the moment the take reaches the server: the script runs, the
+     caller sees either its answer or the context error *)
+| XPTake (lim key : nat) (down cut : bool) (w : Z) (code err : Z) (ent : ent3) (exp : list Z)
   (* g goroutines, one Take each; observed: how many answered code 0..3, how many errors *)
 | XPConc (lim key : nat) (g : nat) (w : Z) (counts : list Z) (errs : Z) (ent : ent3) (exp : list Z)
   (* the server is replaced by a fresh miniredis on the same address *)
@@ -86,12 +88,15 @@ Fixpoint pmodel (lims : list (Z * Z * bool * nat)) (st : pstate) (ops : list xpo
   | [] => true
   | XPTick ms :: r => pmodel lims (fst (pstep st (PTick ms))) r
   | XPReplace :: r => pmodel lims (fst (pstep st PReplace)) r
-  | XPTake lim key down w code err ent exp :: r =>
+  | XPTake lim key down cut w code err ent exp :: r =>
       let '(period, quota, align, pfx) := lim_of lims lim in
       let k := kid pfx key in
       let (st', out) := pstep st (PTake k quota w (negb down)) in
       window_ok align period w exp &&
-      match out with Some (_, res) => res_eqb res code err | None => false end &&
+      match out with
+      | Some (_, res) => res_eqb res code err || (cut && res_eqb (Err 1%nat) code err)
+      | None => false
+      end &&
       ent_eqb (fst st') (rget (fst st') k (snd st')) ent &&
       pmodel lims st' r
   | XPConc lim key g w counts errs ent exp :: r =>
@@ -121,14 +126,17 @@ Fixpoint pspec (lims : list (Z * Z * bool * nat)) (t : Z) (ws : windows) (ops : 
   | XPTick ms :: r => if ms <? 0 then true else pspec lims (t + ms) ws r
   (* a fresh server has lost every window; the limiter must simply keep working on it *)
   | XPReplace :: r => pspec lims t [] r
-  | XPTake lim key down w code err ent exp :: r =>
+  | XPTake lim key down cut w code err ent exp :: r =>
       let '(period, quota, align, pfx) := lim_of lims lim in
       if period <? 1 then true
       else if down then negb (code =? S_Allowed) && negb (code =? S_HitQuota) && pspec lims t ws r
       else
         let wl := if align then w else period in
         let (ws', c) := wtake t (kid pfx key) quota wl ws in
-        (err =? 0) && (code =? c) && (1 <=? wl) && (wl <=? period) && pspec lims t ws' r
+        (* a take whose caller gave up while it was at the server still counts in its window, which
+           still expires; the caller got the answer or no admission at all *)
+        (((err =? 0) && (code =? c)) || (cut && negb (err =? 0) && negb (code =? S_Allowed) && negb (code =? S_HitQuota))) &&
+        (1 <=? wl) && (wl <=? period) && pspec lims t ws' r
   | XPConc lim key g w counts errs ent exp :: r =>
       let '(period, quota, align, pfx) := lim_of lims lim in
       if period <? 1 then true
